@@ -182,6 +182,24 @@ def generate(ctx, n_ops):
             emitted += 1
             if res.startswith("ok\tu"):
                 yield from eq_units(special["Lap"], 6, int(res.split("\t")[1][1:]))
+    # (d) named units whose dimension is a product of different base dimensions, each to the first power
+    # (mass x length, a "tonne-kilometre"), with no definition as a product of a mass and a length unit:
+    #     Haul2 = 2 Haul,  Haul = 5 OtherSack*Pace2;  Sack is connected to nothing
+    mdim = ",".join(str(e) for e in Unit._by_name["gram"].dimension.exponents)
+    mldim = ",".join(str(e) for e in (Unit._by_name["gram"].dimension * Unit._by_name["meter"].dimension).exponents)
+    prod = {}
+    for nm, dim in (("Haul", mldim), ("Haul2", mldim), ("Sack", mdim), ("OtherSack", mdim), ("Pace2", ldim), ("Tick", tdim)):
+        prod[nm] = yield from define(nm, dim)
+    product_cases = []
+    if all(v is not None for v in prod.values()):
+        yield from eq_units(prod["Haul2"], 2, prod["Haul"])
+        res = yield "U\tmul\tu%d\tu%d" % (prod["OtherSack"], prod["Pace2"])
+        emitted += 1
+        if res.startswith("ok\tu"):
+            yield from eq_units(prod["Haul"], 5, int(res.split("\t")[1][1:]))
+        S, O, P, H, H2, T = (prod[k] for k in ("Sack", "OtherSack", "Pace2", "Haul", "Haul2", "Tick"))
+        product_cases = [([S, P], [H2]), ([H2], [S, P]), ([S, P, T], [H2, T]), ([H2, T], [O, P, T]), ([H], [O, P]),
+                         ([O, P], [H2]), ([S, P], [O, P]), ([H2, S], [H, O]), ([P, S], [H])]
     ctx.resolve_sizes()
     pool_special = [v for v in special.values() if v is not None] + [meter, second]
 
@@ -199,7 +217,24 @@ def generate(ctx, n_ops):
 
     while emitted < n_ops:
         r = rng.random()
-        if r < 0.35:
+        if product_cases and r < 0.08:
+            fa, fb = rng.choice(product_cases)
+            a = b = None
+            for side, fs in (("a", fa), ("b", fb)):
+                cur = fs[0]
+                for nxt in fs[1:]:
+                    res = yield "U\tmul\tu%d\tu%d" % (cur, nxt)
+                    emitted += 1
+                    cur = int(res.split("\t")[1][1:]) if res.startswith("ok\tu") else None
+                    if cur is None:
+                        break
+                if side == "a":
+                    a = cur
+                else:
+                    b = cur
+            if a is None or b is None:
+                continue
+        elif r < 0.35:
             # special units: same dimension, often unconnected
             a = rng.choice(pool_special)
             same = [u for u in pool_special if ctx.unit(u).dimension is ctx.unit(a).dimension]
